@@ -174,4 +174,40 @@ CHECKS = {
               "aliased between methods not); callee chains into src/ir are bounded only; string building of the 31 visit "
               "methods per translator is not under contract"),
         design='DESIGN.md section 4 (C11)'),
+    'C03': dict(
+        level='exploration',
+        technique='bounded stand-in only: the real TypeErasure (with the type dependency analysis) run on hand-built and generated programs in four languages, steered over the equally large candidate sets it may choose, and judged by a structural before/after diff of every node attribute plus an independent three-valued local type inference',
+        text=("NOT proved. First sentence (only declared types / explicit type arguments are removed, every other node, name, "
+              "modifier and recorded type identical): structural snapshot diff of the whole program object graph. Second "
+              "sentence (still well-typed when each removed annotation is replaced by what a compiler infers): an independent "
+              "local inference written from the statement re-derives every removed annotation from the remaining program and "
+              "re-types the uses of narrowed variables; undecided cases (lambdas, projections, bound-only type parameters) are "
+              "counted, not judged. One genuine defect found and repaired in /repo (initialiser is a field of the enclosing "
+              "class). A deductive treatment would need the type system of four languages as a contract: out of reach."),
+        note="bounded: 14 hand-built scenarios x 2 element types x 4 languages + fixed generator seed lists (10 per language quick, 41-52 thorough); inferred-narrower-than-declared is counted, not reported",
+        design='DESIGN.md section 4 (C03/C04)'),
+    'C04': dict(
+        level='exploration',
+        technique='bounded stand-in only: the real TypeOverwriting run on the same programs (plain and erased) for several RNG seeds, judged by structural diff (exactly one declared type changed), declarative unrelatedness incl. assignment conversions, message content, translation change, a three-valued must-reject approximation and javac where a Java translation exists',
+        text=("NOT proved. Whenever an injection is reported: exactly one declared type / explicit type argument differs, the new "
+              "type is neither subtype, supertype nor assignable either way (independent relation over the program's class "
+              "table), the message names old type, new type and node, the translation changes, and the local approximation "
+              "(or javac) rejects the program; when nothing is reported the translation and the program are unchanged. One "
+              "defect repaired in /repo (erased, unprinted type arguments were overwritten); two recorded as known findings "
+              "(method-call type arguments never printed by the Java/Groovy translators; assignment conversions ignored by "
+              "the irrelevant-type search). The dependency on find_irrelevant_type is C09's bounded check."),
+        note="bounded: same program set x RNG seeds of the mutation; 'a correct type checker must reject' is approximated (three-valued), decided by javac only for a budgeted Java subset",
+        design='DESIGN.md section 4 (C03/C04)'),
+    'C18': dict(
+        level='exploration',
+        technique='bounded stand-in only: the real pipeline (generate, translate, TypeErasure, translate, TypeOverwriting, translate) run for a finite list of language x seed x switches x depth limit x mutation options; no exception in any stage, work budgets for termination, erasure search budget, and a nesting bound derived from the generator code as a function of the configured depth',
+        text=("NOT proved: the generator is ~2700 lines of randomised mutually recursive descent whose termination argument is a "
+              "global depth counter threaded through cfg and instance state; no contract within reach of the VC generator "
+              "states it. Run-time-error freedom IS discharged (as safety[...] obligations: index in range, key present, "
+              "None dereference) for the functions under deductive contract in C19/C16/C15/C06/C07/C14, but that is a small "
+              "part of the pipeline. The bounded check runs every stage of the real pipeline per input and reports the "
+              "innermost repository frame of any exception, work-budget overruns, and nesting beyond f(d)=2*max(2d+1,d+3). "
+              "One genuine defect found and repaired in /repo (TypeParameter.has_bound_of dereferenced a None factory)."),
+        note="bounded: quick 73 inputs (4 languages x seeds 1-8, depth limits 1-4, 2 switch combinations, max_combinations 1-2, timeout 0); thorough 532 inputs (50 seeds per language, depth limits up to 8, 15 switch combinations); termination is a budget, never proved",
+        design='DESIGN.md section 4 (C18)'),
 }
